@@ -131,7 +131,7 @@ def build(desc, dec):
         del m.fields[mut[1] % len(m.fields)]
     elif k == "value" and m.fields:
         f = m.fields[mut[1] % len(m.fields)]
-        f.value = f.raw_value = {"huge": 10 ** 30, "neg": -(10 ** 12), "text": "x", "none": None, "float": 1e300}[mut[2]]
+        f.value = f.raw_value = {"huge": 1e30, "neg": -1.0e12, "text": "x", "none": None, "int": 10 ** 9}[mut[2]]
     elif k == "by-name" and m.fields:
         for f in m.fields:
             if f.type.name == "LOOKUP":
@@ -211,7 +211,7 @@ class Source:
         if k < 0.3:
             base["mut"] = ["drop", rng.randrange(64)]
         elif k < 0.65:
-            base["mut"] = ["value", rng.randrange(64), rng.choice(["huge", "neg", "text", "none", "float"])]
+            base["mut"] = ["value", rng.randrange(64), rng.choice(["huge", "neg", "text", "none", "int"])]
         elif k < 0.8:
             base["mut"] = ["id", rng.choice(["noSuchDefinition", "", base["id"].upper(), "nmeaRequestGroupFunction"])]
         elif k < 0.9:
@@ -350,7 +350,7 @@ def correspond(ctx, prop=None, n_cases=None):
         return [{"name": "encoder end to end: CorrEncEndToEnd.v does not compile against the regenerated tables", "n": 0,
                  "failing": [], "errors": [out[-1500:]], "distinct_nontrivial": 0}]
     rng = random.Random(f"ence2e:{prop}:{ctx.seed}:{ctx.tier}")
-    n = n_cases if n_cases is not None else ctx.n(64, 600)
+    n = n_cases if n_cases is not None else ctx.n(48, 600)
     t0 = time.time()
     raw, lits, keys = [], [], []
     dist = {"cases_per_format": {}, "calls": 0, "calls_per_format": {}, "encoded": 0, "encoded_fast_packet": 0,
@@ -374,9 +374,10 @@ def correspond(ctx, prop=None, n_cases=None):
             if o[0] == "ok":
                 dist["encoded"] += 1
                 dist["packets"] += len(o[1])
-                dist["defs"].add((m.PGN, m.id))
-                dist["pgns"].add(m.PGN)
                 dd = _find_def(m.PGN, m.id)
+                if dd is not None:
+                    dist["defs"].add((m.PGN, m.id))
+                dist["pgns"].add(m.PGN)
                 if dd is not None and dd.get("Type") == "Fast":
                     nf += 1
                 else:
